@@ -73,6 +73,11 @@ def pc_mutations(case, lo, kinds=None):
             fails.append("%s %s verifier accepts mutated input: %s %s" % (sch, opk, m["kind"], " ".join(m["args"][:2] if m["kind"] in ("proofs", "comm_mut", "proof_mut", "proof_mut_v", "attack") else [])))
         elif m["expect"] == "accept" and r != "accept":
             fails.append("%s %s verifier does not accept harmless variation: %s -> %s" % (sch, opk, m["kind"], r))
+        # the same altered commitments with a cooperating prover (a fresh opening made against them)
+        r2 = lib_s(lo, "mut.%d.reopen" % m["m"])
+        if m["expect"] == "reject" and r2 == "accept":
+            fails.append("%s %s verifier accepts altered commitments when the proof is made against them: %s %s"
+                         % (sch, opk, m["kind"], " ".join(m["args"][:2])))
     return fails
 
 
